@@ -355,6 +355,8 @@ void vp_round_consts(int out[4]) { out[0] = FE_TONEAREST; out[1] = FE_DOWNWARD; 
 
 /* 1 = a transaction is open on the CIF's connection */
 int vp_in_transaction(cif_tp *cif) { return (cif && cif->db) ? !sqlite3_get_autocommit(cif->db) : -1; }
+/* the storage engine's last error message for this CIF (diagnostics in witnesses only) */
+const char *vp_db_errmsg(cif_tp *cif) { return (cif && cif->db) ? sqlite3_errmsg(cif->db) : ""; }
 
 /* ------------------------------------------------------------------------------------------------
  * sanitizer-visible reads
